@@ -104,6 +104,18 @@ Fixpoint long_repeat_from (last : option frame) (count : N) (fs : list frame) : 
   end.
 Definition long_repeat (fs : list frame) : bool := long_repeat_from None 0 fs.
 
+(* ---- what the theorems need to know about CPython's character classes ------------- *)
+Record cc_ok (C : cc) : Prop := mkCCok {
+  sp_32 : is_sp C 32 = true;                                      (* ' '.isspace() *)
+  sp_print : forall c, 33 <= c <= 126 -> is_sp C c = false;       (* printable ASCII is not white space *)
+  br_10 : is_br C 10 = true;                                      (* LF is a line boundary *)
+  br_32 : is_br C 32 = false;                                     (* a blank is not *)
+  br_sp : forall c, is_br C c = true -> is_sp C c = true;         (* every line boundary is white space *)
+  dg_ascii : forall c, 48 <= c <= 57 -> is_dg C c = true;         (* 0-9 are decimal digits *)
+  dg_low : forall c, c < 48 -> is_dg C c = false;                 (* nothing below '0' is *)
+  dg_br : forall c, is_dg C c = true -> is_br C c = false         (* no digit is a line boundary *)
+}.
+
 (* ---- well-formedness: when does the text determine the structure ----------------- *)
 Section WF.
   Context (C : cc).
@@ -112,9 +124,12 @@ Section WF.
 
   Definition nonempty (s : str) : bool := negb (is_nil s).
   Definition no_space (s : str) : bool := forallb (fun c => negb (is_sp C c)) s.
-  Definition stripped (s : str) : bool := str_eqb (strip C s) s.
+  Definition first_not_space (s : str) : bool :=
+    match s with [] => true | c :: _ => negb (is_sp C c) end.
   Definition last_not_space (s : str) : bool :=
     match rev s with [] => true | c :: _ => negb (is_sp C c) end.
+  (* s.strip() == s *)
+  Definition stripped (s : str) : bool := first_not_space s && last_not_space s.
 
   Definition path_ok (p : str) : bool := nonempty p && no_break C p.
   Definition lineno_ok (n : str) : bool := nonempty n && all_digits C n.
